@@ -128,21 +128,36 @@ mod verif_recon {
         }
     }
 
-    macro_rules! recon_case {
-        ($name:ident, $c:expr, $crlf:expr, $hard:expr, $wide:expr, $unwind:expr) => {
-            #[kani::proof]
-            #[kani::unwind($unwind)]
-            fn $name() {
-                run_pair($c, $crlf, $hard, $wide);
-            }
-        };
-    }
     // quick tier
-    recon_case!(recon_c0000_lf, (0, 0, 0, 0), false, false, true, 8);
-    recon_case!(recon_c1111_crlf, (1, 1, 1, 1), true, false, true, 12);
+    #[kani::proof]
+    #[kani::unwind(8)]
+    fn recon_c0000_lf() {
+        run_pair((0, 0, 0, 0), false, false, true);
+    }
+    #[kani::proof]
+    #[kani::unwind(12)]
+    fn recon_c1111_crlf() {
+        run_pair((1, 1, 1, 1), true, false, true);
+    }
     // thorough tier
-    recon_case!(recon_c0000_crlf_tabs, (0, 0, 0, 0), true, true, false, 8);
-    recon_case!(recon_c2121_lf_tabs, (2, 1, 2, 1), false, true, false, 14);
-    recon_case!(recon_c0212_crlf, (0, 2, 1, 2), true, false, false, 14);
-    recon_case!(recon_c1002_lf, (1, 0, 0, 2), false, false, true, 12);
+    #[kani::proof]
+    #[kani::unwind(8)]
+    fn recon_c0000_crlf_tabs() {
+        run_pair((0, 0, 0, 0), true, true, false);
+    }
+    #[kani::proof]
+    #[kani::unwind(14)]
+    fn recon_c2121_lf_tabs() {
+        run_pair((2, 1, 2, 1), false, true, false);
+    }
+    #[kani::proof]
+    #[kani::unwind(14)]
+    fn recon_c0212_crlf() {
+        run_pair((0, 2, 1, 2), true, false, false);
+    }
+    #[kani::proof]
+    #[kani::unwind(12)]
+    fn recon_c1002_lf() {
+        run_pair((1, 0, 0, 2), false, false, true);
+    }
 }
